@@ -24,7 +24,7 @@ from vcdd.oracle.ircmp import canon
 KINDS = ("function_parse_partial", "emit_class", "emit_function", "emit_argparse", "emit_sqlalchemy", "emit_docstring",
          "json_schema", "infer_imports", "merge_assignment_lists", "gen_file", "gen_file_imports", "doctrans",
          "openapi", "class_parse", "sync_properties", "optimise_imports", "emit_sqlalchemy_custom", "docstring_parse",
-         "function_parse_footer", "gen_phase1", "json_schema_set_default", "gen_file_infer", "gen_dir", "gen_imports_from_file")
+         "function_parse_footer", "gen_phase1", "json_schema_set_default", "gen_file_infer", "gen_dir", "gen_imports_from_file", "shared_ir")
 
 # a small shared pool of type names the converters have no table entry for: a later case meets names an earlier
 # (or an interleaved, unrelated) conversion has already seen - what a module-level table that learns would change
@@ -89,7 +89,48 @@ def class_module(r, n=None, names=None):
     return "\n\n".join(out) + "\n"
 
 
+HISTORY = ["order"]
+SHARED_FIRST = ("function", "class", "argparse", "docstring", "json_schema")
+SHARED_THEN = ("class_call", "argparse", "function", "docstring", "json_schema", "class")
+
+
+def _shared_emit(ir, fmt):
+    """one description object handed to an emitter as it is (no copy): what code that emits several targets does"""
+    if fmt == "class_call":
+        return hops.emit(ir, "class", emit_call=True, _share=True)[1]
+    if fmt == "function":
+        return hops.emit(ir, "function", function_type=ir.get("type") or "static", _share=True)[1]
+    return hops.emit(ir, fmt, _share=True)[1]
+
+
+def shared_ir_case(r):
+    """a parsed function whose body does some work and ends in `return <value>` (or does not), emitted as E2 - in the
+    histories `twice` and `interleaved` the same description object went through another emitter E1 just before"""
+    import cdd.function.parse
+
+    n = r.randint(1, 4)
+    names = r.sample(irgen.NAMES, n)
+    sig = ", ".join("%s: %s = %s" % (nm, t, d) for nm, (t, d) in zip(names, (r.choice((("int", "3"), ("float", "-0.5"),
+                    ("str", "'x'"), ("bool", "False"))) for _ in names)))
+    ret = r.choice(("    return %s\n" % names[0], "    return 'done'\n", "    return (%s, 1)\n" % names[-1], "", "    return None\n"))
+    body = "    total = %s\n    print(total, %s)\n" % (names[0], names[-1]) if r.random() < 0.7 else ""
+    doc = "\n    ".join(["%s" % irgen.rand_doc(r), ""] + [":param %s: %s" % (nm, irgen.rand_doc(r, stop=False)) for nm in names]
+                        + ([":return: %s" % irgen.rand_doc(r, stop=False)] if ret and r.random() < 0.7 else []))
+    src = 'def run(%s):\n    """\n    %s\n    """\n%s%s' % (sig, doc, body, ret or ("" if body else "    pass\n"))
+    ir = cdd.function.parse.function(ast.parse(src).body[0])
+    ir["name"] = ir.get("name") or "run"
+    first, then = r.choice(SHARED_FIRST), r.choice(SHARED_THEN)
+    if HISTORY[0] in ("twice", "interleaved"):
+        try:
+            _shared_emit(ir, first)
+        except Exception:
+            pass
+    return "%s after %s\n%s" % (then, first, _shared_emit(ir, then))
+
+
 def run_case(kind, r, tmp):
+    if kind == "shared_ir":
+        return shared_ir_case(r)
     import cdd.shared.ast_utils as au
 
     if kind == "function_parse_partial":
@@ -316,6 +357,7 @@ def main():
     tmp_abs = tempfile.mkdtemp(prefix="vcdd-c10-")
     os.chdir(tmp_abs)
     tmp = "."  # relative paths only: a path that leaks into an output must not differ between processes
+    HISTORY[0] = history
     ids = list(range(first, first + count))
     if history == "reversed":
         ids.reverse()
